@@ -280,6 +280,69 @@ theorem destroyLoop_spec (s : Store) (l : LH) (hg : Good s.db) (hv : l.validB s.
   rw [hl]
   rfl
 
+theorem getBlock_spec (s : Store) (n : Name) : (getBlock s n).2 = specGetBlockH (absS s.db) n := by
+  unfold getBlock specGetBlockH
+  have hb : (absS s.db).blocks = s.db.blocks := rfl
+  rw [hb]
+  cases s.db.blocks.find? (fun b : BlockRow => b.name == n.key) <;> rfl
+
+theorem getFrame_spec (s : Store) (h : CH) (n : Option Name) : (getFrame s h n).2 = specGetFrameH (absS s.db) h n := by
+  unfold getFrame specGetFrameH
+  have hb : (absS s.db).frames = s.db.frames := rfl
+  rw [hb]
+  cases n with
+  | none => rfl
+  | some nm =>
+    simp only []
+    cases hv : nm.valid with
+    | false => rfl
+    | true =>
+      simp only [Bool.not_true, Bool.false_eq_true, if_false]
+      cases s.db.frames.find? (fun f : FrameRow => f.parent == h.id && f.name == nm.key) <;> rfl
+
+/-- cif_container_destroy of an existing container commutes with `absS` and returns CIF_OK -/
+theorem destroyContainer_spec (s : Store) (h : CH) (hg : Good s.db) (hv : h.validB s.db = true) :
+    absS (destroyContainer s h).1.db = (specDestroyContainer (absS s.db) h).1 ∧
+    (destroyContainer s h).2 = (specDestroyContainer (absS s.db) h).2 := by
+  have hn : ((s.db.containers.filter (fun c => c.id == h.id)).length == 0) = false := by
+    obtain ⟨r, hr, hre⟩ := (hasContainer_iff _ _).mp hv
+    have : r ∈ s.db.containers.filter (fun c => c.id == h.id) := List.mem_filter.mpr ⟨hr, by simp [hre]⟩
+    cases hl : s.db.containers.filter (fun c => c.id == h.id) with
+    | nil => rw [hl] at this; cases this
+    | cons a b => rfl
+  let p : LoopRow → Bool := fun l => l.cid == h.id
+  have hr := deleteLoops_refines s.db p hg.inv (fun a b hc _ => by simp only [p, hc])
+  have hd' : s.db.deleteContainer h.id =
+      ({ s.db.deleteLoops p with containers := s.db.containers.filter (fun c => !(c.id == h.id)),
+                                 blocks := s.db.blocks.filter (fun b => !(b.cid == h.id)),
+                                 frames := s.db.frames.filter (fun f => !(f.cid == h.id) && !(f.parent == h.id)) },
+       (s.db.containers.filter (fun c => c.id == h.id)).length) := by
+    unfold Db.deleteContainer
+    simp only [hn, Bool.false_eq_true, if_false]
+    rfl
+  unfold destroyContainer specDestroyContainer
+  rw [hd']
+  have hn' : (((absS s.db).containers.filter (fun c => c.id == h.id)).length == 0) = false := hn
+  simp only [hn, hn', Bool.false_eq_true, if_false]
+  refine ⟨?_, by first | rfl | trivial⟩
+  have e : ∀ (c1 : List ContainerRow) (b1 : List BlockRow) (f1 : List FrameRow) (y : LoopRow), absALoop { s.db.deleteLoops p with containers := c1, blocks := b1, frames := f1 } y = absALoop (s.db.deleteLoops p) y := fun _ _ _ _ => rfl
+  have hl : ((s.db.deleteLoops p).loops).map (absALoop (s.db.deleteLoops p)) = (s.db.loops.map (absALoop s.db)).filter (fun y => !(y.cid == h.id)) := by
+    rw [hr.1, List.filter_map]
+    have : ((fun y : ALoop => !(y.cid == h.id)) ∘ absALoop s.db) = (fun y : LoopRow => !p y) := by funext y; rfl
+    rw [this]
+    apply List.map_congr_left
+    intro y hy
+    obtain ⟨hym, hyk⟩ := List.mem_filter.mp hy
+    have hyk' : p y = false := by
+      cases hb : p y with
+      | false => rfl
+      | true => rw [hb] at hyk; cases hyk
+    unfold absALoop
+    rw [deleteLoops_loopItems s.db p (fun a b hc _ => by simp only [p, hc]) y hyk', hr.2.1 y hym hyk']
+  show ({ containers := s.db.containers.filter (fun c => !(c.id == h.id)), blocks := s.db.blocks.filter (fun b => !(b.cid == h.id)), frames := s.db.frames.filter (fun f => !(f.cid == h.id) && !(f.parent == h.id)), nextId := s.db.nextId, loops := ((s.db.deleteLoops p).loops).map (absALoop (s.db.deleteLoops p)) } : AState) = _
+  rw [hl]
+  rfl
+
 -- ---- worlds ------------------------------------------------------------------------------------------------------------------------------
 
 open World in
@@ -381,6 +444,104 @@ theorem specStep_refines (w : World) (op : Op) (h : WOk w) (hin : inContract w o
       have hit : (absW w).itOnLh l = w.itOnLh l := rfl
       rw [hit]
       cases w.itOnLh l with
+      | true => rfl
+      | false =>
+        simp only [Bool.false_eq_true, if_false]
+        rw [← h1, ← h2]
+        simp only [Option.some.injEq, Prod.mk.injEq, and_true]
+        show ({ cifs := _, chs := _, lhs := _, its := _ } : AWorld) = { cifs := _, chs := _, lhs := _, its := _ }
+        congr 1
+        exact (absW_setCif w e.cif _).symm
+  | cifNew => simp only [specStep, step, absW, List.map_append]; rfl
+  | cifDel c =>
+    simp only [specStep, step, liveC_absW]
+    cases hl : w.liveC c with
+    | none => rfl
+    | some s =>
+      simp only [Option.map_some, Option.some.injEq, Prod.mk.injEq, and_true]
+      show ({ cifs := _, chs := _, lhs := _, its := _ } : AWorld) = { cifs := _, chs := _, lhs := _, its := _ }
+      congr 1
+      show (w.cifs.map _).set c none = (w.cifs.set c none).map _
+      rw [List.map_set]; rfl
+  | getBlock c n =>
+    simp only [specStep, step, liveC_absW]
+    cases hl : w.liveC c with
+    | none => rfl
+    | some s =>
+      simp only [Option.map_some]
+      have h1 := getBlock_fst s n
+      have h2 := getBlock_spec s n
+      rw [← h2]
+      simp only [Option.some.injEq, Prod.mk.injEq, and_true]
+      show ({ cifs := _, chs := _, lhs := _, its := _ } : AWorld) = { cifs := _, chs := _, lhs := _, its := _ }
+      congr 1
+      rw [h1]; exact (absW_setCif w c _).symm
+  | blocks c =>
+    simp only [specStep, step, liveC_absW]
+    cases hl : w.liveC c with
+    | none => rfl
+    | some s =>
+      simp only [Option.map_some, Option.some.injEq, Prod.mk.injEq]
+      refine ⟨?_, rfl⟩
+      show ({ cifs := _, chs := _, lhs := _, its := _ } : AWorld) = { cifs := _, chs := _, lhs := _, its := _ }
+      congr 1
+      exact (absW_setCif w c _).symm
+  | getFrame hh n =>
+    simp only [specStep, step, liveH_absW]
+    cases hl : w.liveH hh with
+    | none => rfl
+    | some pr =>
+      obtain ⟨e, s⟩ := pr
+      simp only [Option.map_some]
+      have h1 := getFrame_fst s e.h n
+      have h2 := getFrame_spec s e.h n
+      rw [← h2]
+      simp only [Option.some.injEq, Prod.mk.injEq, and_true]
+      show ({ cifs := _, chs := _, lhs := _, its := _ } : AWorld) = { cifs := _, chs := _, lhs := _, its := _ }
+      congr 1
+      rw [h1]; exact (absW_setCif w e.cif _).symm
+  | frames hh =>
+    simp only [specStep, step, liveH_absW]
+    cases hl : w.liveH hh with
+    | none => rfl
+    | some pr =>
+      obtain ⟨e, s⟩ := pr
+      simp only [Option.map_some, Option.some.injEq, Prod.mk.injEq]
+      refine ⟨?_, rfl⟩
+      show ({ cifs := _, chs := _, lhs := _, its := _ } : AWorld) = { cifs := _, chs := _, lhs := _, its := _ }
+      congr 1
+      exact (absW_setCif w e.cif _).symm
+  | code hh =>
+    simp only [specStep, step, liveH_absW]
+    cases hl : w.liveH hh with
+    | none => rfl
+    | some pr => rfl
+  | isBlock hh =>
+    simp only [specStep, step, liveH_absW]
+    cases hl : w.liveH hh with
+    | none => rfl
+    | some pr => rfl
+  | getCat l =>
+    simp only [specStep, step, liveL_absW]
+    cases hl : w.liveL l with
+    | none => rfl
+    | some pr => rfl
+  | cdestroy hh =>
+    simp only [specStep, step, liveH_absW]
+    cases hl : w.liveH hh with
+    | none => rfl
+    | some pr =>
+      obtain ⟨e, s⟩ := pr
+      have hv : e.h.validB s.db = true := by
+        have : okH w hh = true := hin
+        unfold okH at this; rw [hl] at this
+        simp only [Bool.and_eq_true] at this; exact this.2
+      have hg := (h.good.live (liveH_liveC hl)).db
+      obtain ⟨h1, h2⟩ := destroyContainer_spec s e.h hg hv
+      simp only [Option.map_some]
+      have hit : (absW w).itOnCh hh = w.itOnCh hh := rfl
+      rw [hit]
+      cases w.itOnCh hh with
       | true => rfl
       | false =>
         simp only [Bool.false_eq_true, if_false]
